@@ -494,6 +494,25 @@ func (env *Env) elabCall(e *SCall) Val {
 					return ex.pureApp(env, obj, nil, args(), exprString(e))
 				}
 			}
+			// a pure-contracted function of an imported package, by unqualified name
+			if env.pkg != nil {
+				for _, imp := range env.pkg.Imports() {
+					if obj, ok := imp.Scope().Lookup(id.Name).(*types.Func); ok {
+						if fc := ex.cs.Funcs[funcKey(obj)]; fc != nil && fc.Pure {
+							return ex.pureApp(env, obj, nil, args(), exprString(e))
+						}
+					}
+				}
+			}
+			for _, fc := range ex.cs.Funcs {
+				if fc.Pure && strings.HasSuffix(fc.Key, "."+id.Name) && strings.Count(fc.Key[strings.LastIndex(fc.Key, "/")+1:], ".") == 1 {
+					if p := ex.ld.byPath[fc.PkgPath]; p != nil {
+						if obj, ok := p.Scope().Lookup(id.Name).(*types.Func); ok {
+							return ex.pureApp(env, obj, nil, args(), exprString(e))
+						}
+					}
+				}
+			}
 			elabFail("unknown function %s", id.Name)
 		}
 	}
